@@ -195,24 +195,14 @@ end Limiter
 
 /-! ### Plugin layer -/
 
-/-- `unicode.IsSpace` (what `strings.TrimSpace` strips). -/
-def isGoSpace (c : Char) : Bool :=
-  c == ' ' || c == '\t' || c == '\n' || c.toNat == 0x0B || c.toNat == 0x0C || c == '\r' || c.toNat == 0x85 ||
-  c.toNat == 0xA0 || c.toNat == 0x1680 || (0x2000 ≤ c.toNat && c.toNat ≤ 0x200A) || c.toNat == 0x2028 ||
-  c.toNat == 0x2029 || c.toNat == 0x202F || c.toNat == 0x205F || c.toNat == 0x3000
-
-/-- `strings.TrimSpace` -/
-def goTrim (s : String) : String :=
-  String.ofList ((s.toList.dropWhile isGoSpace).reverse.dropWhile isGoSpace).reverse
-
-/-- What `buildGroupID` puts after the colon: `strings.TrimSpace(obfuscator.ObfuscateString(value))`.
-    Production wiring (`services.go`) passes the IDENTITY obfuscator: the key holds the header value itself,
-    minus surrounding white space, in its original letter case.  With the MD5 obfuscator (unit tests) the hash
-    is modelled as injective with whitespace-free output, so the raw value stands for it. -/
-def normGroup (identityHash : Bool) (v : String) : String := if identityHash then goTrim v else v
+/-- What `buildGroupID` puts after the colon: `obfuscator.ObfuscateString(value)` (since fix F09e without
+    `strings.TrimSpace`).  Production wiring (`services.go`) passes the IDENTITY obfuscator: the key holds the
+    header value itself, byte for byte.  With the MD5 obfuscator (unit tests) the hash is modelled as
+    injective, so the raw value stands for it.  Either way: the value. -/
+def normGroup (_identityHash : Bool) (v : String) : String := v
 
 /-- `RequestArguments`: remedy name, and for grouped limits the LOWER-CASED header NAME (only the name is
-    folded) and the normalised header value (`normGroup`); the code stores `lower(name) ++ ":" ++ that`. -/
+    folded) and the header value as it is; the code stores `lower(name) ++ ":" ++ obfuscated value`. -/
 structure Key where
   remedy : String
   group  : Option (String × String)
